@@ -127,4 +127,35 @@ def run(args):
                 rep.fail(dict(feat, kind="round-trip-fails"), {"case": c, "got": g})
             elif norm(g["back"]) != norm(c["a"]) or not g["eq"]:
                 rep.fail(dict(feat, kind="round-trip-changes-value"), {"case": c, "got": g})
+    # ---- JSON round trip of numbers at the edges of what JSON libraries like to do with them (inside programs, on both
+    # backends): every int64 comes back as itself, floats stay floats, nested or not
+    ints = [0, 1, -1, 255, 2 ** 31, 2 ** 32 + 1, 2 ** 53 - 1, 2 ** 53, 2 ** 53 + 1, -(2 ** 53) - 1, 9007199254740993, 1727308800123456789, 10 ** 18 + 1,
+            2 ** 63 - 1, -(2 ** 63) + 1, 2 ** 62 + 3, 123456789012345678]
+    def lit(n):
+        return str(n) if n >= 0 else "(0 - %d)" % -n
+    progs = []
+    for n in ints:
+        progs.append(("int", n, "fn main() { let v = %s; let j = [v].to_json(); let back = j.parse_json() as [int]; println(j); println(back[0] == v, back[0]); "
+                      "let o = new { k: v, l: [v, v] }; let jo = o.to_json(); let bo = jo.parse_json() as { k: int, l: [int] }; println(jo); println(bo.k == v, bo.l[1] == v, bo == o); }\n" % lit(n),
+                      "[%d]\ntrue %d\n{\"k\":%d,\"l\":[%d,%d]}\ntrue true true\n" % (n, n, n, n, n)))
+    for f, shown in (("2.0", "2.0"), ("0.5", "0.5"), ("1000000.0", "1000000.0"), ("(0.0 - 3.0)", "-3.0"), ("9007199254740993.0", "9007199254740992.0"), ("0.1", "0.1")):
+        progs.append(("float", f, "fn main() { let v = %s; let j = [v].to_json(); let back = j.parse_json() as [float]; println(j); println(back[0] == v); }\n" % f,
+                      "[%s]\ntrue\n" % shown))
+    res = pool.map([{"op": "run", "id": i, "a": {"modules": {"main": src}, "entry": "main", "backend": b, "timeout_ms": 8000}}
+                    for i, (k, n, src, want) in enumerate(progs) for b in ("vm", "tree")], timeout=30)
+    k = 0
+    for kind, n, src, want in progs:
+        for b in ("vm", "tree"):
+            rr = res[k]
+            k += 1
+            rep.count()
+            rep.nontrivial(("json-number", kind, str(n), b))
+            feat = {"family": "json-numbers", "backend": b, "kind_of_number": kind}
+            if "crash" in rr or "hang" in rr:
+                rep.fail(dict(feat, kind="hostcrash"), {"program": src, "real": str(rr)[:1200]})
+                continue
+            r_ = rr["r"]
+            if not r_["accepted"] or r_["out"] != want or (r_.get("outcome") or {}).get("kind") != "done":
+                rep.fail(dict(feat, kind="round-trip-changes-number"), {"program": src, "want": want, "got": r_["out"], "outcome": r_.get("outcome"),
+                                                                       "diags": [d for d in r_["diags"] if d["level"] == "Error"][:2]})
     return rep.finish()
